@@ -1128,7 +1128,7 @@ def check_handle_item_pairing(rep, fl, rule="R06.2", collisions=True, only_sites
     if ok:
         # one iteration over the victim vector returned by add (a `for` loop, for_each or try_for_each alike); in
         # every round the element's key is removed from the store with the wildcard conflict 0
-        its = [i_ for i_ in iterations(hi) if mentions(norm(hi.expand(i_.source)), victims)]
+        its = [i_ for i_ in iterations(hi) if mentions(i_.origin(), victims)]
         ok = len(its) == 1
         if ok:
             it_ = its[0]
@@ -1150,7 +1150,7 @@ def check_handle_item_pairing(rep, fl, rule="R06.2", collisions=True, only_sites
     if not vic_switch:
         # `for victim in victim_sets.into_iter().flatten()`: the loop itself looks at the list (no rounds for None)
         for it_ in iterations(hi):
-            if mentions(norm(hi.expand(it_.source)), victims):
+            if mentions(it_.origin(), victims):
                 vic_switch.append(it_.nbi)
                 some_edges.append(it_.some)
     errs = [x for x, tt in hi.calls() if callee_matches(hi.callee_of(tt), "FromResidual::from_residual")]
@@ -1242,10 +1242,11 @@ def check_remove_pair(rep, fl, rule="R06.3"):
     rep.check(ok, rule, fl, b, "store.try_remove then Delete{index, conflict}", "remove() deletes from the store at once and queues Delete for the same (index, conflict) on the insert buffer",
               "try_remove does not pair the immediate store removal with a queued Delete of the same (index, conflict)")
     # the removed value goes to on_exit
-    ex = calls_to(b, "CacheCallback::on_exit")
+    fb_ = fl.facts.flat(b)   # the call may sit in a closure (`.map(|prev| on_exit(..))`, a callback handed to a helper)
+    ex = calls_to(fb_, "CacheCallback::on_exit")
     ok = len(ex) == 1
     if ok:
-        a = [norm(x) for x in b.call_args(ex[0][1])]
+        a = [resolve_payloads(fb_, fb_.expand(norm(x))) for x in fb_.call_args(ex[0][1])]
         ok = a[1][0] == "agg" and a[1][2].endswith("Option::Some") and is_call(a[1][3][0], "SharedValue::into_inner") and any(is_call(c, SM + "::try_remove") for c in calls_in(a[1]))
     rep.check(ok, "R08.2", fl, b, "removed => on_exit", "the value taken out by remove() is handed to on_exit", "remove() does not hand the removed value to on_exit")
 
